@@ -397,7 +397,8 @@ Definition sc_validate (c : sccfg) : res (Z * Z * Z * encoding) := sc_validate_f
 (* stored PixelData (native) of the flattened words *)
 Definition sc_encode (e : encoding) (ws : list Z) : list Z :=
   match e with
-  | ENative8 => flat_map (le_bytes 1) ws
+  | ENative8 => let b := flat_map (le_bytes 1) ws in         (* odd byte count: trailing null byte (D96) *)
+                if Nat.even (length b) then b else b ++ [0]
   | ENative16 => flat_map (le_bytes 2) ws
   | EPacked => let b := pack_bits (length ws / 8) ws in      (* pydicom pack_bits pads to even length *)
                if Nat.even (length b) then b else b ++ [0]
